@@ -294,6 +294,9 @@ pub fn parse_chunks(s: &str) -> Vec<Vec<u8>> {
 /// and returns its stdout (None when RNT_BIN is not set: process-level cases are then not generated).
 pub fn run_cli(toml: &str) -> Option<String> {
     let bin = std::env::var("RNT_BIN").ok()?;
+    if std::env::var("NTV_DRY").is_ok() {
+        return Some("dry".into());
+    }
     let dir = std::env::var("NTV_TMP").unwrap_or_else(|_| std::env::temp_dir().to_string_lossy().to_string());
     let path = format!("{}/ntvh-cli-{}-{:?}.toml", dir, std::process::id(), std::thread::current().id());
     std::fs::write(&path, toml).ok()?;
